@@ -222,9 +222,9 @@ func c06RT(c *Ctx, ty, val string, mode, variant int, trail []byte) {
 		case d == "panic":
 			obs = "panic"
 		case d == "err":
-			obs = fmt.Sprintf("rerr w=%s wn=%d", hx(w), wn)
+			obs = fmt.Sprintf("rerr w=%s wn=%d", hxs(w), wn)
 		default:
-			obs = fmt.Sprintf("ok w=%s wn=%d %s", hx(w), wn, d[3:])
+			obs = fmt.Sprintf("ok w=%s wn=%d %s", hxs(w), wn, d[3:])
 		}
 	})
 	if p {
@@ -306,10 +306,10 @@ func c06Pkt(c *Ctx, ty, val string, mode, variant int, trail []byte) {
 		w := append([]byte{}, p.Data...)
 		q := pk.Packet{ID: p.ID, Data: append(append([]byte{}, w...), trail...)}
 		if err := q.Scan(fd...); err != nil {
-			obs = "serr w=" + hx(w)
+			obs = "serr w=" + hxs(w)
 			return
 		}
-		obs = fmt.Sprintf("ok id=%d w=%s v=%s", p.ID, hx(w), in.get())
+		obs = fmt.Sprintf("ok id=%d w=%s v=%s", p.ID, hxs(w), in.get())
 	})
 	if p {
 		obs = "panic"
@@ -372,7 +372,7 @@ func c06NBT(c *Ctx, name string) {
 		br := bytes.NewReader(append(append([]byte{}, w...), 0x7e, 0x7f))
 		rn, err := pk.NBT(dst).ReadFrom(br)
 		if err != nil {
-			obs = fmt.Sprintf("rerr w=%s wn=%d", hx(w), wn)
+			obs = fmt.Sprintf("rerr w=%s wn=%d", hxs(w), wn)
 			return
 		}
 		obs = fmt.Sprintf("ok w=%s wn=%d rn=%d left=%d v=%s", hx(w), wn, rn, br.Len(), strings.ReplaceAll(show(), " ", "_"))
@@ -396,6 +396,11 @@ func replayC06(c *Ctx, op string, a []string) bool {
 		c06Pkt(c, a[0], a[1], atoi(a[2]), atoi(a[3]), unhx(a[4]))
 	case "nbt.rt":
 		c06NBT(c, a[0])
+	case "nbt.omit":
+		x, _ := strconv.ParseUint(a[1], 16, 32)
+		c06NBTOmit(c, atoi(a[0]), int32(uint32(x)))
+	case "nbt.fld":
+		c06NBTFld(c, a[0], atoi(a[1]), a[2] == "1", a[3], atoi(a[4]), unhx(a[5]), unhx(a[6]))
 	default:
 		return false
 	}
